@@ -158,7 +158,19 @@ def prepare(tier, res=None):
     process (and hence every task forked from it) stays pristine."""
     nseeds = 48 if tier == "thorough" else 40
     cand = []
+    special = {
+        "2": ["AV:N/AC:L/Au:N/C:C/I:C/A:C", "AV:L/AC:L/Au:N/C:C/I:C/A:C/TD:H", "AV:L/AC:H/Au:M/C:N/I:N/A:N/E:U"],
+        "3.0": ["AV:N/AC:L/PR:N/UI:N/S:C/C:H/I:H/A:H", "AV:L/AC:L/PR:L/UI:R/S:C/C:H/I:H/A:L/E:P",
+                "AV:N/AC:L/PR:L/UI:N/S:U/C:H/I:H/A:H/MS:C", "AV:P/AC:H/PR:H/UI:R/S:U/C:N/I:N/A:N"],
+        "4.0": ["AV:N/AC:L/AT:N/PR:N/UI:N/VC:H/VI:H/VA:H/SC:H/SI:H/SA:H",
+                "AV:N/AC:L/AT:N/PR:N/UI:N/VC:N/VI:N/VA:N/SC:N/SI:N/SA:N/MSI:S",
+                "AV:L/AC:H/AT:P/PR:H/UI:A/VC:L/VI:L/VA:L/SC:L/SI:L/SA:L/MAV:N/MVC:H/E:U"],
+    }
+    special["3.1"] = special["3.0"]
     for fam in T.FAMILIES:
+        for body in special[fam]:
+            asg = dict(f.split(":") for f in body.split("/"))
+            cand.append((T.model_key(fam, asg), T.PREFIX[fam] + body, fam))
         for s, asg in observe.covering_seeds(fam, nseeds):
             key = T.model_key(fam, asg)
             if key not in [c[0] for c in cand]:
